@@ -158,7 +158,8 @@ def run(ck):
         ck.saw(g.fn)
     m = [g for g in by_err(gs, "InconsistentOodConstraintEvaluations")
          if match_cmp(g, ("!=",), has_callee("evaluator::evaluate_constraints"),
-                      all_of(has_callee("VerifierChannel::read_ood_constraint_evaluations"), has_callee("Iterator::fold")))]
+                      all_of(has_callee("VerifierChannel::read_ood_constraint_evaluations"), has_callee("RandomCoin::draw"),
+                             V.has_callee_deep("Air::trace_length")))]
     require(ck, "G", "InconsistentOodConstraintEvaluations", m,
             "reject iff evaluate_constraints(opened frame, drawn coefficients, z) != sum_i z^(i*n) * opened composition column i")
     dropped(ck, prog)
